@@ -219,7 +219,7 @@ theorem repo_panics_deq_nil_ptrptr :
 /-- `loop-nil-key-panics`: Loop over `PM = map[*string]int{nil: 1}` with an iterator that asks for keys: the
 emitted `*k` (compiler.go:785-800) dereferences the nil key; the repaired emitter hands over an empty key. -/
 theorem repo_panics_loop_nil_key :
-    (loopM GenCfg.repo exScriptKeys exFt exNode .ptr exVal [seg "PM"]).fin = .panic ∧
+    (loopM GenCfg.original exScriptKeys exFt exNode .ptr exVal [seg "PM"]).fin = .panic ∧
     (loopM GenCfg.fixed exScriptKeys exFt exNode .ptr exVal [seg "PM"]).fin = .done ∧
     (loopM GenCfg.fixed exScriptKeys exFt exNode .ptr exVal [seg "PM"]).groups.map (·.key) = [some []] := by
   decide
